@@ -81,6 +81,9 @@ def explore(ck, label, ps, obs=None):
     for p in ps:
         r = res.get(p["id"], {"err": 1})
         q = {k: p[k] for k in ("id", "nv", "entry", "exit", "blocks", "outs")}
+        for k in ("kinds", "ncells"):       # array programs: kinds of the variables and number of cells per array
+            if "ncells" in p:
+                q[k] = p[k]
         if "err" in r:
             q.update({"err": 1, "live": [], "dead": [[] for _ in p["blocks"]]})
         else:
@@ -263,6 +266,21 @@ def run(tier, seed):
         crawl_half(ck, "c%d" % k, cps, kinds, 2 if tier == "quick" else 3, sample=(k == 0))
         done += m
         k += 1
+    # ---- liveness of ARRAY variables (own small batch: the state space of a program has two 2-cell arrays)
+    na = 60 if tier == "quick" else 600
+    aps = [proggen.array_live_program(ck.rng, 800000 + i) for i in range(na)]
+    remaining = aps
+    for attempt in range(4):
+        v, merged = explore(ck, "arr_%d" % attempt, remaining)
+        if v is None:
+            break
+        prog = next(p for p in remaining if p["id"] == v["prog"])
+        ck.violation("C18: liveness reports variable %d (%s) dead at the end of block b%d, but changing it there changes the execution: %s at "
+                     "block b%d idx %d with states %s / %s" % (v["variable"], prog["vars"][v["variable"] - 1]["n"], v["dead_at_end_of_block"],
+                                                              v["violated"], v["block"], v["idx"], v["state1"], v["state2"]),
+                     {"program": prog, "violation": v})
+        remaining = [p for p in remaining if p["id"] != v["prog"]]
+    ck.cov["array_liveness_programs"] = na
     ck.cov["crawler_violation_kinds"] = dict(kinds)
     ck.cov["rule"] = ("seeded CFGs with assertions, `unreachable` statements in the middle of blocks and a function declaration with 0-2 "
                       "outputs. Liveness: for EVERY block and EVERY variable reported dead at its end, every pair of box states differing "
